@@ -112,7 +112,7 @@ impl Property for C04 {
     fn components_stubbed(&self) -> Vec<&'static str> { vec!["TCP socket -> SimStream (client-chosen read boundaries, optional short writes)", "ACL: default AclManager, metrics: no-op, as in a default server start", "TLS, accept loop, TTL manager task not run; the clock stands still during a run"] }
     fn assumptions(&self) -> Vec<&'static str> { vec!["SPOP is not generated (legitimately random)", "a damaged frame must be answered by at least one error reply after the replies of the earlier commands; what happens to commands sent after it in the same read is not constrained"] }
     fn required_probes(&self) -> Vec<&'static str> { vec!["split_inside_frame", "partial_tail_frame", "stream_reaches_min_pipeline_buffer", "malformed_frame_sent"] }
-    fn runs(&self, tier: Tier) -> u64 { match tier { Tier::Quick => 1500, Tier::Thorough => 40_000 } }
+    fn runs(&self, tier: Tier) -> u64 { match tier { Tier::Quick => 40000, Tier::Thorough => 600000 } }
 
     fn derive(&self, tape: &[u64], rep: &RunReport, tier: Tier) -> Vec<Vec<u64>> {
         if tape.len() < 4 || tape[H_MODE] % 8 != 0 { return vec![]; }
